@@ -20,7 +20,10 @@ impl<'a, V> GenericLibraryFactory<'a, V> {
         expect_library_name: &LibraryName,
         char_stream: impl Iterator<Item = char>,
     ) -> Result<Self, SchemeError> {
-        let lexer = Lexer::from_char_stream(char_stream);
+        let mut lexer = Lexer::from_char_stream(char_stream);
+        // errors raised while running library code are reported at the failing form of the
+        // program, not at a line and column of the library source
+        lexer.locate_tokens = false;
         let mut parser = Parser::from_lexer(lexer);
         // macros defined inside a library source stay local to it
         parser.syntax_env = std::rc::Rc::new(crate::environment::LexicalScope::new_child(
